@@ -100,6 +100,50 @@ static int gen_set(H3Index *set, int cap, int res, int i, const char **kind, int
     return n;
 }
 
+/* 1 if some meridian misses every cell of the set (the longitude intervals of the cells do not cover the circle) */
+static int cmp_dd(const void *a, const void *b) { double x = ((const double *)a)[0], y = ((const double *)b)[0]; return x < y ? -1 : x > y; }
+static int g_cov0, g_covpi;   /* set by lng_gap: some cell's longitude interval contains the prime meridian / the antimeridian */
+static int lng_gap(const H3Index *set, int n) {
+    g_cov0 = g_covpi = 0;
+    double (*iv)[2] = malloc(sizeof(double[2]) * (2 * n + 2)); int m = 0;
+    for (int i = 0; i < n; i++) { CellBoundary cb; if (!isValidCell(set[i]) || cellToBoundary(set[i], &cb)) continue;
+        double l[MAX_CELL_BNDRY_VERTS]; for (int j = 0; j < cb.numVerts; j++) l[j] = cb.verts[j].lng; qsort(l, cb.numVerts, sizeof(double), cmp_dd);
+        double bg = l[0] + 2 * M_PI - l[cb.numVerts - 1]; int bi = cb.numVerts - 1; for (int j = 0; j + 1 < cb.numVerts; j++) if (l[j + 1] - l[j] > bg) { bg = l[j + 1] - l[j]; bi = j; }
+        /* the cell's interval is the complement of its widest gap: from l[bi+1] eastwards to l[bi] */
+        double lo = l[(bi + 1) % cb.numVerts], hi = l[bi];
+        if (lo <= hi) { if (lo <= 0 && hi >= 0) g_cov0 = 1; } else { g_covpi = 1; if (lo <= 0 || hi >= 0) g_cov0 = 1; }
+        if (lo <= hi) { iv[m][0] = lo; iv[m][1] = hi; m++; } else { iv[m][0] = lo; iv[m][1] = M_PI; m++; iv[m][0] = -M_PI; iv[m][1] = hi; m++; } }
+    if (!m) { free(iv); return 1; }
+    qsort(iv, m, sizeof(double[2]), cmp_dd);
+    int gap = iv[0][0] > -M_PI + 1e-9; double reach = iv[0][1];
+    for (int i = 1; i < m && !gap; i++) { if (iv[i][0] > reach + 1e-9) gap = 1; if (iv[i][1] > reach) reach = iv[i][1]; }
+    if (reach < M_PI - 1e-9) gap = 1;
+    free(iv); return gap;
+}
+static int has_pole_cell(const H3Index *set, int n) {
+    int res = -1; for (int i = 0; i < n; i++) if (isValidCell(set[i])) { res = getResolution(set[i]); break; } if (res < 0) return 0;
+    LatLng np = {M_PI_2, 0}, sp = {-M_PI_2, 0}; H3Index a = 0, b = 0; latLngToCell(&np, res, &a); latLngToCell(&sp, res, &b);
+    for (int i = 0; i < n; i++) if (set[i] == a || set[i] == b) return 1; return 0;
+}
+
+/* belts: every cell of a coarse resolution whose centre lies in a latitude / longitude window up to 340 degrees wide, with a few
+ * interior cells removed: outlines wider than half the globe that do (or do not) cross the antimeridian */
+static int gen_belt(H3Index *set, int cap, int res, int i) {
+    double L = (15 + 30 * vt_rand01()) * M_PI / 180, W = (50 + 120 * vt_rand01()) * M_PI / 180; double wmax = 5.2 / (4 * sin(L)); if (W > wmax) W = wmax;
+    double c0 = i % 3 == 0 ? 0 : i % 3 == 1 ? M_PI : (vt_rand01() - 0.5) * 2 * M_PI; double lat0 = (vt_rand01() - 0.5) * 0.6;
+    CellVec all = {0}; cv_all_cells(&all, res); int n = 0; int pct = (int)vt_randn(3) * 4;
+    for (int64_t k = 0; k < all.n; k++) { LatLng c; cellToLatLng(all.v[k], &c); double dl = c.lng - c0; while (dl > M_PI) dl -= 2 * M_PI; while (dl < -M_PI) dl += 2 * M_PI;
+        if (fabs(c.lat - lat0) > L || fabs(dl) > W) continue;
+        int interior = fabs(c.lat - lat0) < 0.7 * L && fabs(dl) < 0.9 * W;
+        if (interior && (int)vt_randn(100) < pct) continue;
+        if (n < cap) set[n++] = all.v[k]; }
+    /* at least one hole: drop an interior cell near the middle if none was dropped */
+    if (pct == 0 && n > 10) { LatLng g = {lat0, c0}; H3Index h = 0; latLngToCell(&g, res, &h); for (int k = 0; k < n; k++) if (set[k] == h && (i & 1)) { set[k] = set[--n]; break; } }
+    cv_free(&all);
+    for (int j = n - 1; j > 0; j--) { int q = (int)vt_randn(j + 1); H3Index t = set[j]; set[j] = set[q]; set[q] = t; }
+    return n;
+}
+
 static long n_sets = 0; static long double worst_units = 0;
 static void run_set(const H3Index *set, int n, const char *kind, int variant) {
     H3Index *in = malloc(sizeof(H3Index) * (n + 2)); memcpy(in, set, sizeof(H3Index) * n); int m = n;
@@ -111,9 +155,10 @@ static void run_set(const H3Index *set, int n, const char *kind, int variant) {
     fprintf(vt_out, "{\"e\":\"Call\",\"f\":\"cellsToLinkedMultiPolygon\",\"scen\":%ld,\"plan\":{\"kind\":\"never\",\"i\":0}}\n", n_sets);
     g_nptr = 0; g_logging = 1; H3Error r = cellsToLinkedMultiPolygon(in, m, &out); g_logging = 0;
     fprintf(vt_out, "{\"e\":\"Return\",\"f\":\"cellsToLinkedMultiPolygon\",\"scen\":%ld,\"r\":%u}\n", n_sets, r);
-    if (r == 0) {
-        /* ---- projection of the result */
-        int np = 0, nv = 0; for (LinkedGeoPolygon *p = &out; p; p = p->next) { if (p->first || p == &out) np++; for (LinkedGeoLoop *lp = p->first; lp; lp = lp->next) for (LinkedLatLng *v = lp->first; v; v = v->next) nv++; }
+    if (r == 0 || variant == 0) {
+        /* ---- projection of the result (an error return on a valid set is an observation too: no polygons) */
+        if (r) memset(&out, 0, sizeof out);
+        int np = 0, nv = 0; for (LinkedGeoPolygon *p = &out; p; p = p->next) { if (p->first || (p == &out && !r)) np++; for (LinkedGeoLoop *lp = p->first; lp; lp = lp->next) for (LinkedLatLng *v = lp->first; v; v = v->next) nv++; }
         vid_reset(m * 10 + nv + 16);
         int dom = 1; long double maxlat = 0; L3 mean = {0, 0, 0};
         fprintf(vt_out, "{\"e\":\"lmp\",\"kind\":\"%s\",\"variant\":%d,\"rc\":%u,\"res\":%d,\"cells\":", kind, variant, r, m ? getResolution(in[0]) : -1); vt_words(in, m);
@@ -126,12 +171,17 @@ static void run_set(const H3Index *set, int n, const char *kind, int variant) {
         fputc(']', vt_out);
         mean = l3_unit(mean); long double maxang = 0;
         for (int i = 0; i < g_nvp; i++) { long double a = l3_angle(mean, g_vp[i].p); if (a > maxang) maxang = a; }
-        if (maxlat > 1.45L || maxang > 1.0L || okc == 0) dom = 0;
+        /* the property's domain: the footprint reaches no pole; and, so that "counter-clockwise" and "enclosed area" are
+         * unambiguous for the projection, it leaves some meridian free (does not wrap around the globe) and covers less than
+         * 0.9 of a hemisphere */
+        (void)maxang;
+        int gap = lng_gap(in, m);
+        if (maxlat > 1.45L || okc == 0 || tot > 0.9L * 2 * M_PI || !gap || has_pole_cell(in, m)) dom = 0;
         long double unit = okc ? tot / okc / 10000.0L : 1;
         fputs(",\"ca\":[", vt_out); for (int i = 0; i < m; i++) fprintf(vt_out, "%s%ld", i ? "," : "", (long)llroundl(ca[i] / unit)); fputc(']', vt_out);
-        fprintf(vt_out, ",\"dom\":%d,\"polys\":[", dom);
+        fprintf(vt_out, ",\"dom\":%d,\"bm\":%d,\"polys\":[", dom, g_cov0 && g_covpi);
         int fp = 1;
-        for (LinkedGeoPolygon *p = &out; p; p = p->next) {
+        for (LinkedGeoPolygon *p = &out; p && !r; p = p->next) {
             if (!p->first && p != &out) continue;
             fputs(fp ? "[" : ",[", vt_out); fp = 0; int fl = 1;
             for (LinkedGeoLoop *lp = p->first; lp; lp = lp->next) {
@@ -145,9 +195,11 @@ static void run_set(const H3Index *set, int n, const char *kind, int variant) {
             fputc(']', vt_out);
         }
         fputs("]}\n", vt_out); free(ca);
+        if (!r) {
         fprintf(vt_out, "{\"e\":\"Call\",\"f\":\"destroyLinkedMultiPolygon\",\"scen\":%ld,\"plan\":{\"kind\":\"never\",\"i\":0}}\n", n_sets);
         g_logging = 1; destroyLinkedMultiPolygon(&out); g_logging = 0;
         fprintf(vt_out, "{\"e\":\"Return\",\"f\":\"destroyLinkedMultiPolygon\",\"scen\":%ld,\"r\":0}\n", n_sets);
+        }
     }
     free(in); n_sets++;
 }
@@ -157,7 +209,7 @@ int main(int argc, char **argv) {
     int quick = argv[2][0] == 'q'; vt_seed(strtoull(argv[3], 0, 10) + 16); vt_open(argv[4]);
     g_ptr = malloc(sizeof(void *) * MAXBLK);
     for (int r = 0; r <= 15; r++) getPentagons(r, PENT[r]);
-    int cap = 4000; H3Index *set = malloc(sizeof(H3Index) * cap);
+    int cap = 20000; H3Index *set = malloc(sizeof(H3Index) * cap);
     int per = quick ? 10 : 120;
     for (int i = 1; i <= (quick ? 260 : 4000); i++) { const char *kind = "?"; int res = 1 + (int)vt_randn(15); int n = gen_set(set, cap, res, -i, &kind, quick); if (n > 0) run_set(set, n, kind, 0); }
     for (int res = 0; res <= 15; res++) for (int i = 0; i < per; i++) {
@@ -165,6 +217,7 @@ int main(int argc, char **argv) {
         run_set(set, n, kind, 0);
         if (i % 7 == 3) run_set(set, n, kind, 1 + (i / 7) % 3);                   /* error paths: allocator contract */
     }
+    for (int i = 0; i < (quick ? 12 : 90); i++) { int res = quick ? i % 2 : i % 3; if (!quick && i % 30 == 29) res = 3; int n = gen_belt(set, cap, res, i); if (n > 0) run_set(set, n, "belt", 0); }
     /* error path through normalisation: all base cells but two far apart (outside the domain: reaches the poles) */
     { H3Index r0[122]; getRes0Cells(r0); int n = 0; for (int i = 0; i < 122; i++) if (i != 30 && i != 90) set[n++] = r0[i]; run_set(set, n, "globe-minus-two", 0); }
     { H3Index r0[122]; getRes0Cells(r0); run_set(r0, 122, "globe", 0); }
